@@ -468,6 +468,10 @@ def gen_lists(tier):
         L([T1, L([A("a"), A("b")], T1)]), L([T1, L([I(1)], T1)]), L([T1, St("a", T1)]),
         L([T1, C(".", A("a"), T1)]), C("f", L([A("a")], T1), T1), L([L([A("a")], T1), T1]),
         L([T2, L([A("a")], T1)]), L([T1, L([A("a")], T2)], T1),
+        L([T1, St("ab", T1)]), L([T1, St("a", T1), T2]), L([T1, T2, St("a", T1)]), L([T2, St("a", T1), T1]),
+        L([St("a", T1), T1]), L([St("a", T1)], T1), C("f", T1, St("a", T1)), C("f", St("a", T1), T1),
+        L([T1, St("a", T1), T2, Vr(3)]), L([T1, L([St("a", T1)])]), L([T1, St("a", St("b", T1))]),
+        L([T1, St("a", T2)]), L([T1, C("f", St("a", T1))]),
     ]:
         yield t
 
